@@ -273,7 +273,7 @@ type Ent struct {
 	RawCnt  int32
 	RawMode uint32 // mode stored in the entry itself (differs from Mode for a stale hard-link copy)
 	RawT    string // mtime class of the entry itself
-	Walked  bool // reached by a ListEntries walk from "/"
+	Walked  bool   // reached by a ListEntries walk from "/"
 }
 
 // KV is one shared hard-link record.
